@@ -5,10 +5,10 @@ from __future__ import annotations
 
 import ast
 
-from tiv.astutil import body_walk, call_name, dotted, enclosing_stmt, flatten_boolop, guards, kw, norm, rename, short, stores_in, walk_local
+from tiv.astutil import ancestors, body_walk, call_name, dotted, enclosing_stmt, flatten_boolop, guards, kw, names_loaded, norm, rename, short, stores_in, walk_local
 from tiv.match import find_stmts, match_expr, match_stmt
 from tiv.mutate import M
-from tiv.sem import trace, same_bool
+from tiv.sem import expand, trace, same_bool
 
 RULES = {
     "MEMO": "memo safety (shared, rules/common.py): a memoised function in this property's files (or called from them) is a function of its "
@@ -74,8 +74,22 @@ def run(ck, m):
         elems_ok = ok and all(isinstance(e, ast.BoolOp) and isinstance(e.op, ast.Or) and len(e.values) == 2 and norm(e.values[1]) == "1" for e in r.value.elts)
         ck.ob("R1", r, elems_ok, f"`{short(r, 70)}`: every returned dimension must be clamped with `or 1` (a size of 0 cells would make rendering fail / emit CSI 0 sequences)", stmt=f"_valid_size: {short(r, 90)}")
     ss = m.get(CM, "BaseImage.set_size")
-    ck.ob("R1", ss, any(isinstance(s, ast.If) and norm(s.test) == "isinstance(arg_value, int) and arg_value <= 0" and isinstance(s.body[0], ast.Raise) for s in body_walk(ss)),
-          "set_size must reject non-positive integer dimensions", stmt="set_size: rejects dimensions <= 0")
+    # each of width and height is rejected when it is an int <= 0: directly, or through a loop variable ranging over both
+    covered = set()
+    for s in body_walk(ss):
+        if not (isinstance(s, ast.If) and s.body and isinstance(s.body[0], ast.Raise)):
+            continue
+        b_ = match_expr("isinstance($v, int) and $v <= 0", s.test) or match_expr("isinstance($v, int) and $v < 1", s.test) or match_expr("isinstance($v, int) and not $v > 0", s.test)
+        if b_ is None or not isinstance(b_["v"], ast.Name):
+            continue
+        v_ = b_["v"].id
+        if v_ in ("width", "height"):
+            covered.add(v_)
+            continue
+        loop = next((a_ for a_ in ancestors(s) if isinstance(a_, ast.For) and any(isinstance(t_, ast.Name) and t_.id == v_ for t_ in ast.walk(a_.target))), None)
+        if loop is not None:
+            covered |= {n_ for n_ in names_loaded(expand(ss, loop.iter, use=loop)) if n_ in ("width", "height")}
+    ck.ob("R1", ss, covered == {"width", "height"}, f"set_size must reject non-positive integer dimensions (both width and height; found for {sorted(covered)})", stmt="set_size: rejects dimensions <= 0")
 
     # ---- R2 ----------------------------------------------------------------------------
     units = {}
